@@ -113,7 +113,7 @@ func init() {
 	register(&Prop{
 		ID:         "C07",
 		Title:      "Update expressions apply exactly their actions and nothing else",
-		Decided:    "(R1) the update parser, the action dispatch and the clause-continuation list agree on the four actions SET, ADD, REMOVE, DELETE, and + / − are the only arithmetic operators; (R2) per action, the effects reachable from its handler are the ones the action may have: SET assigns (attribute or path), REMOVE removes, ADD adds to a number/set or creates the attribute only when it is undefined, DELETE removes set members and never creates an attribute; (R3) on a left-hand side the handler does not support, every handler returns an error object – never a silent success without effect; (R4) the working environment is applied to the item only after parse and evaluation succeeded (shared with C08.R2); (R5) 'removed means gone': when the environment is written back, attributes of the item that the environment no longer holds are deleted; (R6) 'nothing else changed': only attributes targeted by an action are written back; (R7) '+' computes left + right and '−' left − right, in that order; (R8) every right-hand side reads the pre-update item (two-phase evaluation); (R9) because the write-back re-serialises every attribute (R6), an untouched attribute keeps its type only if every object kind writes its type-carrying field non-nil, also when empty (= C10.R7 on the object side); (R10) the functions usable in an update (list_append, if_not_exists, …) and the arithmetic of SET build new objects: none of them stores into an object it received as an operand, because operands are the environment's own objects of OTHER attributes; (R12) if_not_exists keeps an existing attribute of type NULL: existence is decided by the undefined test (= C06.R5 at that function); (R14) an attribute may be named like an alias key of the request (\"#s\"): loading the item into the environment and writing it back use the attribute names as they are – neither reaches a lookup in an alias table, otherwise such an attribute is confused with, or renamed to, the attribute the alias stands for.",
+		Decided:    "(R1) the update parser, the action dispatch and the clause-continuation list agree on the four actions SET, ADD, REMOVE, DELETE, and + / − are the only arithmetic operators; (R2) per action, the effects reachable from its handler are the ones the action may have: SET assigns (attribute or path), REMOVE removes, ADD adds to a number/set or creates the attribute only when it is undefined, DELETE removes set members and never creates an attribute; (R3) on a left-hand side the handler does not support, every handler returns an error object – never a silent success without effect; (R4) the working environment is applied to the item only after parse and evaluation succeeded (shared with C08.R2); (R5) 'removed means gone': when the environment is written back, attributes of the item that the environment no longer holds are deleted; (R6) 'nothing else changed': only attributes targeted by an action are written back; (R7) '+' computes left + right and '−' left − right, in that order; (R8) every right-hand side reads the pre-update item (two-phase evaluation); (R9) because the write-back re-serialises every attribute (R6), an untouched attribute keeps its type only if every object kind writes its type-carrying field non-nil, also when empty (= C10.R7 on the object side); (R10) the functions usable in an update (list_append, if_not_exists, …) and the arithmetic of SET build new objects: none of them stores into an object it received as an operand, because operands are the environment's own objects of OTHER attributes; (R12) if_not_exists keeps an existing attribute of type NULL: existence is decided by the undefined test (= C06.R5 at that function); (R14) an attribute may be named like an alias key of the request (\"#s\"): loading the item into the environment and writing it back use the attribute names as they are – neither reaches a lookup in an alias table, otherwise such an attribute is confused with, or renamed to, the attribute the alias stands for; (R13) positions in a list refer to the stored list until the update is finished (removals are compacted once, at the end): the read accessors of the object types – Get, Contains, Type, Inspect, ToDynamoDB – store nothing through their receiver and call no mutating method on it.",
 		NotDecided: "the resulting values themselves: list_append / if_not_exists results, nested path semantics, set arithmetic, number formatting (C12).",
 		Rules: []RuleDef{
 			{ID: "R1", Desc: "the four actions agree across parser, dispatch and continuation list (T-TABLE)", Run: c07R1},
@@ -146,6 +146,7 @@ func init() {
 			{ID: "R11", Desc: "SET stores a copy of its operand, not the operand's own object (T-COPY)", Run: c07R11},
 			{ID: "R12", Desc: "if_not_exists decides existence with the undefined test, not the NULL tag (= C06.R5)", Run: aliasRule("R12", c06R5, func(c string) bool { return strings.Contains(strings.ToLower(c), "ifnotexists") })},
 			{ID: "R14", Desc: "the item is loaded into and written back from the environment under literal attribute names (no alias resolution)", Run: c07R14},
+			{ID: "R13", Desc: "reading an object does not change it: the read accessors of the object types store nothing through their receiver (T-PURE)", Run: c07R13},
 		},
 	})
 }
@@ -1006,5 +1007,57 @@ func c07R14(e *Engine) {
 		} else {
 			e.pass("R14", construct, e.pos(fn.Pos()), "no alias table is consulted while whole items are moved in or out of the environment")
 		}
+	}
+}
+
+// c07R13: REMOVE marks list elements and the environment compacts the lists once, after the last action, so that every
+// position in the expression refers to the list as stored. A read accessor that compacts (or otherwise changes) its
+// receiver shifts the positions seen by later clauses: `REMOVE l[0] SET l[1].x = :v` then hits the wrong element.
+func c07R13(e *Engine) {
+	readers := map[string]bool{"Get": true, "Contains": true, "Type": true, "Inspect": true, "ToDynamoDB": true}
+	mutators := map[string]bool{"Add": true, "Delete": true, "Remove": true, "Set": true, "Compact": true}
+	n := 0
+	for _, fn := range e.funcs("lang") {
+		if fn.Signature.Recv() == nil || fn.Parent() != nil || !readers[fn.Name()] || len(fn.Params) == 0 {
+			continue
+		}
+		nt := namedOf(fn.Signature.Recv().Type())
+		if nt == nil || nt.Obj().Name() == "Environment" || nt.Obj().Name() == "Parser" || nt.Obj().Name() == "indexAccessor" {
+			continue
+		}
+		n++
+		der := derivedFrom(fn, fn.Params[:1])
+		bad := ""
+		instrs(fn, func(in ssa.Instruction) {
+			switch x := in.(type) {
+			case *ssa.Store:
+				if der[x.Addr] {
+					bad = "a store through the receiver at " + e.ipos(in)
+				}
+			case *ssa.MapUpdate:
+				if der[x.Map] {
+					bad = "a map update on the receiver at " + e.ipos(in)
+				}
+			case *ssa.Call:
+				if nme := staticCalleeName(x); (nme == "builtin.delete" || nme == "builtin.copy") && der[x.Call.Args[0]] {
+					bad = nme + " on the receiver at " + e.ipos(in)
+				}
+				if c := x.Call.StaticCallee(); c != nil && c.Signature.Recv() != nil && len(x.Call.Args) > 0 && der[x.Call.Args[0]] && mutators[c.Name()] {
+					bad = "the mutating method " + e.fname(c) + " is called on the receiver at " + e.ipos(in)
+				}
+				if x.Call.IsInvoke() && der[x.Call.Value] && mutators[x.Call.Method.Name()] {
+					bad = "the mutating method " + x.Call.Method.Name() + " is called on the receiver at " + e.ipos(in)
+				}
+			}
+		})
+		construct := e.fname(fn) + ":read-only"
+		if bad != "" {
+			e.fail("R13", construct, e.pos(fn.Pos()), "%s: reading the object changes it – a list compacted while an update is still being evaluated shifts the positions the remaining clauses refer to", bad)
+		} else {
+			e.ob("R13", construct, e.pos(fn.Pos()), Pass, false, "stores nothing through its receiver")
+		}
+	}
+	if n < 15 {
+		e.fail("R13", "count:R13", "-", "only %d read accessors found", n)
 	}
 }
